@@ -325,6 +325,9 @@ def run(prog, ctx):
                 if len(e.args) >= 2 and not (isinstance(f_, ast.Attribute) and isinstance(f_.value, ast.Name) and f_.value.id in ("np", "numpy")):
                     shp = ast.Tuple(elts=list(e.args), ctx=ast.Load())
                 t = tm0.term(shp) if shp is not None else None
+                cn_ = cc.node_containing(e)
+                if t is not None and cn_ is not None and cn_.ast is not None:
+                    t = R.resolve_locals(call, t, cn_, tm0)
                 return t in (("tuple", lenp, ol), ("tuple", ("c", "-1"), ol))
         if isinstance(e, ast.Name):
             b = R.reaching_unique_def(call, e.id, e)
